@@ -1,11 +1,13 @@
 mod k1;
 mod k2;
+mod etypes;
 mod fp;
 mod k3;
 mod k4;
 mod tree;
 mod k5;
 mod k6;
+mod k7;
 mod inputs;
 mod planners;
 mod refdft;
@@ -14,6 +16,7 @@ mod real;
 mod s06;
 mod s07;
 mod s09;
+mod s14;
 mod report;
 mod s04;
 mod util;
@@ -34,10 +37,12 @@ fn main() {
         "k4" => k4::run(rest),
         "k5" => k5::run(rest),
         "k6" => k6::run(rest),
+        "k7" => k7::run(rest),
         "s04" => s04::run(rest),
         "s06" => s06::run(rest),
         "s07" => s07::run(rest),
         "s09" => s09::run(rest),
+        "s14" => s14::run(rest),
         "snum" => snum::run(rest),
         other => {
             eprintln!("unknown subcommand {}", other);
